@@ -207,30 +207,9 @@ def check(prog, res, tier):
         ob.verdict, ob.detail = PROVED, f'{wrapped} abstract paths catch Iso8583DataError and raise MciIpmDataError; none lets it through'
     res.add(ob)
 
-    for tool, fn in (('cli.mci_ipm_to_csv', 'cli_run'), ('cli.mideu', 'cli_run'), ('cli.paramconv', 'cli_run')):
-        q = f'{tool}.{fn}'
-        if not prog.has_func(q):
-            continue
-        tfi = prog.func(q)
-        ob = Ob('C07.b', f'{tool}.{fn} catches the library data error of the readers', func_where(tfi),
-                'except MciIpmDataError')
-        ok = False
-        for n in ast.walk(tfi.node):
-            if isinstance(n, ast.ExceptHandler):
-                types = [n.type] if n.type is not None and not isinstance(n.type, ast.Tuple) else (n.type.elts if n.type else [])
-                if n.type is None:
-                    ok = True
-                for t in types:
-                    r = prog.resolve_expr(tfi.module, t)
-                    if r and r[0] == 'class' and r[1] in prog.cls('mciipm.MciIpmDataError').mro:
-                        ok = True
-                    if isinstance(t, ast.Name) and t.id in ('Exception', 'BaseException'):
-                        ok = True
-        if ok:
-            ob.verdict, ob.detail = PROVED, 'a handler for MciIpmDataError (or a superclass) encloses the conversion'
-        else:
-            ob.verdict, ob.detail = REFUTED, 'no handler for MciIpmDataError in the tool entry point'
-            ob.witness = {'handlers': 'none'}
+    # the tools' entry points: interpreted with the conversion summarised as "returns or raises the library data error"
+    from .tools import cli_error_obs
+    for ob in cli_error_obs(prog, res, 'escape'):
         res.add(ob)
 
     # ---------------- C07.c loop progress
